@@ -54,6 +54,17 @@ func (w *sw) port(p *of.PhyPort) { // struct ofp_port, 64 bytes
 	}
 }
 
+func portTerm(p *of.PhyPort) string {
+	return fmt.Sprintf("{| p_no := %d; p_hw := %s; p_name := %s; p_config := %d; p_state := %d; p_curr := %d; p_adv := %d; p_supp := %d; p_peer := %d; p_cspeed := %d; p_mspeed := %d |}",
+		p.PortNo, bterm(p.HWAddr), bterm(fixedBytes(p.Name, 16)), p.Config, p.State, p.Curr, p.Advertised, p.Supported, p.Peer, p.CurrSpeed, p.MaxSpeed)
+}
+
+func fixedBytes(b []byte, n int) []byte {
+	o := make([]byte, n)
+	copy(o, b)
+	return o
+}
+
 func elemBytes(m util.Message) []byte { b, _ := m.MarshalBinary(); return b }
 
 // struct ofp_match: type OFPMT_OXM, the length of type+length+fields without the padding,
@@ -73,7 +84,9 @@ func matchBytes(m *of.Match) []byte {
 
 // specSwitchFrame returns the bytes, the expected value, a kind and an optional finding signature
 func (g *G) specSwitchFrame() ([]byte, util.Message, string, string) {
+	g.swRecipe = ""
 	xid := uint32(g.r.Bits(32))
+	g.swXid = xid
 	hdr := func(ty uint8) common.Header { return common.Header{Version: 4, Type: ty, Xid: xid} }
 	w := &sw{}
 	switch g.r.Intn(16) {
@@ -110,6 +123,7 @@ func (g *G) specSwitchFrame() ([]byte, util.Message, string, string) {
 		w.raw(data)
 		b := w.finish()
 		e.Header.Length = uint16(len(b))
+		g.swRecipe = fmt.Sprintf("(SError %d %d %s)", e.Type, e.Code, bterm(data))
 		return b, e, "error", ""
 	case 2: // experimenter error
 		e := &of.VendorError{ErrorMsg: &of.ErrorMsg{Header: hdr(1), Type: 0xffff, Code: uint16(g.r.Bits(16))}, ExperimenterID: uint32(g.r.Bits(32))}
@@ -122,6 +136,7 @@ func (g *G) specSwitchFrame() ([]byte, util.Message, string, string) {
 		w.raw(data)
 		b := w.finish()
 		e.Header.Length = uint16(len(b))
+		g.swRecipe = fmt.Sprintf("(SVendorError %d %d %s)", e.Code, e.ExperimenterID, bterm(data))
 		return b, e, "experimenter-error", ""
 	case 3: // echo request / reply, possibly with a body (the library has no type that keeps it: finding D37)
 		ty := uint8(2 + g.r.Intn(2))
@@ -137,6 +152,7 @@ func (g *G) specSwitchFrame() ([]byte, util.Message, string, string) {
 		if sig != "" {
 			return b, nil, "echo-with-body", sig // no library type can hold the body: nothing to compare equal to
 		}
+		g.swRecipe = fmt.Sprintf("(SHeaderOnly %d)", ty)
 		return b, &h, "echo", sig
 	case 4: // barrier reply, features / get-config request shapes
 		ty := []uint8{21, 20, 5, 7}[g.r.Intn(4)]
@@ -144,6 +160,7 @@ func (g *G) specSwitchFrame() ([]byte, util.Message, string, string) {
 		b := w.finish()
 		h := hdr(ty)
 		h.Length = 8
+		g.swRecipe = fmt.Sprintf("(SHeaderOnly %d)", ty)
 		return b, &h, fmt.Sprintf("header-only/%d", ty), ""
 	case 5: // features reply (struct ofp_switch_features; OpenFlow 1.3 carries no ports here, the library accepts them)
 		s := of.NewFeaturesReply()
@@ -158,13 +175,16 @@ func (g *G) specSwitchFrame() ([]byte, util.Message, string, string) {
 		w.pad(2)
 		w.u32(s.Capabilities)
 		w.u32(s.Actions)
+		var pts []string
 		for i, n := 0, g.r.Intn(4); i < n; i++ {
 			p := g.phyPort()
 			s.Ports = append(s.Ports, *p)
 			w.port(p)
+			pts = append(pts, portTerm(p))
 		}
 		b := w.finish()
 		s.Header.Length = uint16(len(b))
+		g.swRecipe = fmt.Sprintf("(SFeatures %s %d %d %d %d %d %s)", bterm(s.DPID), s.Buffers, s.NumTables, s.AuxilaryId, s.Capabilities, s.Actions, listT(pts))
 		return b, s, "features-reply", ""
 	case 6: // get-config reply
 		c := &of.SwitchConfig{Header: hdr(8), Flags: uint16(g.r.Bits(16)), MissSendLen: uint16(g.r.Bits(16))}
@@ -173,13 +193,15 @@ func (g *G) specSwitchFrame() ([]byte, util.Message, string, string) {
 		w.u16(c.MissSendLen)
 		b := w.finish()
 		c.Header.Length = 12
+		g.swRecipe = fmt.Sprintf("(SGetConfigReply %d %d)", c.Flags, c.MissSendLen)
 		return b, c, "get-config-reply", ""
 	case 7, 8: // packet-in: ofp_packet_in, match, 2 pad bytes, frame
 		p := new(of.PacketIn)
 		p.Header = hdr(10)
 		p.BufferId, p.TotalLen, p.Reason, p.TableId, p.Cookie = uint32(g.r.Bits(32)), uint16(g.r.Bits(16)), uint8(g.r.Intn(3)), uint8(g.r.Bits(8)), g.r.Bits(64)
 		p.Match = *of.NewMatch()
-		g.matchInto(&p.Match, 3, 10)
+		pmt := g.matchInto(&p.Match, 3, 10)
+		var payload []byte
 		w.header(10, xid)
 		w.u32(p.BufferId)
 		w.u16(p.TotalLen)
@@ -196,11 +218,13 @@ func (g *G) specSwitchFrame() ([]byte, util.Message, string, string) {
 			}
 			fb, _ := e.MarshalBinary()
 			w.raw(fb)
+			payload = fb
 			p.Data = *e
 			kind = "packet-in/" + k
 		}
 		b := w.finish()
 		p.Header.Length = uint16(len(b))
+		g.swRecipe = fmt.Sprintf("(SPacketIn %d %d %d %d %d %s (eth_of %s))", p.BufferId, p.TotalLen, p.Reason, p.TableId, p.Cookie, pmt, bterm(payload))
 		return b, p, kind, ""
 	case 9: // flow-removed
 		f := of.NewFlowRemoved()
@@ -208,7 +232,7 @@ func (g *G) specSwitchFrame() ([]byte, util.Message, string, string) {
 		f.Cookie, f.Priority, f.Reason, f.TableId = g.r.Bits(64), uint16(g.r.Bits(16)), uint8(g.r.Intn(4)), uint8(g.r.Bits(8))
 		f.DurationSec, f.DurationNSec, f.IdleTimeout, f.HardTimeout = uint32(g.r.Bits(32)), uint32(g.r.Bits(32)), uint16(g.r.Bits(16)), uint16(g.r.Bits(16))
 		f.PacketCount, f.ByteCount = g.r.Bits(64), g.r.Bits(64)
-		g.matchInto(&f.Match, 3, 10)
+		fmt11 := g.matchInto(&f.Match, 3, 10)
 		w.header(11, xid)
 		w.u64(f.Cookie)
 		w.u16(f.Priority)
@@ -223,6 +247,8 @@ func (g *G) specSwitchFrame() ([]byte, util.Message, string, string) {
 		w.raw(matchBytes(&f.Match))
 		b := w.finish()
 		f.Header.Length = uint16(len(b))
+		g.swRecipe = fmt.Sprintf("(SFlowRemoved %d %d %d %d %d %d %d %d %d %d %s)", f.Cookie, f.Priority, f.Reason, f.TableId, f.DurationSec, f.DurationNSec,
+			f.IdleTimeout, f.HardTimeout, f.PacketCount, f.ByteCount, fmt11)
 		return b, f, "flow-removed", ""
 	case 10: // port-status
 		p := of.NewPortStatus()
@@ -235,6 +261,7 @@ func (g *G) specSwitchFrame() ([]byte, util.Message, string, string) {
 		w.port(&p.Desc)
 		b := w.finish()
 		p.Header.Length = uint16(len(b))
+		g.swRecipe = fmt.Sprintf("(SPortStatus %d %s)", p.Reason, portTerm(&p.Desc))
 		return b, p, "port-status", ""
 	case 11: // multipart reply: description
 		m := &of.MultipartReply{Header: hdr(19), Type: of.MultipartType_Desc, Flags: uint16(g.r.Intn(2))}
@@ -256,6 +283,8 @@ func (g *G) specSwitchFrame() ([]byte, util.Message, string, string) {
 		w.fixed(d.DPDesc, 256)
 		b := w.finish()
 		m.Header.Length = uint16(len(b))
+		g.swRecipe = fmt.Sprintf("(SMpDesc %d %s %s %s %s %s)", m.Flags, bterm(fixedBytes(d.MfrDesc, 256)), bterm(fixedBytes(d.HWDesc, 256)), bterm(fixedBytes(d.SWDesc, 256)),
+			bterm(fixedBytes(d.SerialNum, 32)), bterm(fixedBytes(d.DPDesc, 256)))
 		return b, m, "multipart-reply/desc", ""
 	case 12: // multipart reply: aggregate
 		m := &of.MultipartReply{Header: hdr(19), Type: of.MultipartType_Aggregate, Flags: uint16(g.r.Intn(2))}
@@ -272,6 +301,7 @@ func (g *G) specSwitchFrame() ([]byte, util.Message, string, string) {
 		w.pad(4)
 		b := w.finish()
 		m.Header.Length = uint16(len(b))
+		g.swRecipe = fmt.Sprintf("(SMpAggregate %d %d %d %d)", m.Flags, a.PacketCount, a.ByteCount, a.FlowCount)
 		return b, m, "multipart-reply/aggregate", ""
 	case 13: // multipart reply: flow statistics records with instructions
 		m := &of.MultipartReply{Header: hdr(19), Type: of.MultipartType_Flow, Flags: uint16(g.r.Intn(2))}
@@ -279,18 +309,23 @@ func (g *G) specSwitchFrame() ([]byte, util.Message, string, string) {
 		w.u16(1)
 		w.u16(m.Flags)
 		w.pad(4)
+		var recs []string
 		for i, n := 0, g.r.Geom(2, 5); i < n; i++ {
 			f := of.NewFlowStats()
 			f.TableId, f.DurationSec, f.DurationNSec, f.Priority = uint8(g.r.Bits(8)), uint32(g.r.Bits(32)), uint32(g.r.Bits(32)), uint16(g.r.Bits(16))
 			f.IdleTimeout, f.HardTimeout, f.Flags = uint16(g.r.Bits(16)), uint16(g.r.Bits(16)), uint16(g.r.Bits(16))
 			f.Cookie, f.PacketCount, f.ByteCount = g.r.Bits(64), g.r.Bits(64), g.r.Bits(64)
-			g.matchInto(&f.Match, 2, 8)
+			fmt13 := g.matchInto(&f.Match, 2, 8)
 			var ib []byte
+			var its []string
 			for k, ni := 0, g.r.Geom(2, 4); k < ni; k++ {
-				in, _ := g.instr()
+				in, it := g.instr()
 				f.Instructions = append(f.Instructions, in)
 				ib = append(ib, elemBytes(in)...)
+				its = append(its, it)
 			}
+			recs = append(recs, fmt.Sprintf("{| fs_table := %d; fs_dsec := %d; fs_dnsec := %d; fs_prio := %d; fs_idle := %d; fs_hard := %d; fs_flags := %d; fs_cookie := %d; fs_pkts := %d; fs_bytes := %d; fs_match := %s; fs_instrs := %s |}",
+				f.TableId, f.DurationSec, f.DurationNSec, f.Priority, f.IdleTimeout, f.HardTimeout, f.Flags, f.Cookie, f.PacketCount, f.ByteCount, fmt13, listT(its)))
 			mb := matchBytes(&f.Match)
 			f.Length = uint16(48 + len(mb) + len(ib))
 			w.u16(f.Length)
@@ -312,6 +347,7 @@ func (g *G) specSwitchFrame() ([]byte, util.Message, string, string) {
 		}
 		b := w.finish()
 		m.Header.Length = uint16(len(b))
+		g.swRecipe = fmt.Sprintf("(SMpFlow %d %s)", m.Flags, listT(recs))
 		return b, m, "multipart-reply/flow", ""
 	case 14: // multipart reply: port statistics in the OpenFlow 1.3 layout (finding D13)
 		w.header(19, xid)
@@ -337,9 +373,11 @@ func (g *G) specSwitchFrame() ([]byte, util.Message, string, string) {
 			w.u32(r.MaxSpace)
 			w.u16(r.MaxFields)
 			w.pad(10)
+			var mts []string
 			for i, n := 0, g.r.Geom(2, 6); i < n; i++ {
 				t := &of.TLVTableMap{OptClass: uint16(g.r.Bits(16)), OptType: uint8(g.r.Bits(8)), OptLength: uint8(g.r.Bits(8)), Index: uint16(g.r.Bits(16))}
 				r.TlvMaps = append(r.TlvMaps, t)
+				mts = append(mts, fmt.Sprintf("(%d, %d, %d, %d)", t.OptClass, t.OptType, t.OptLength, t.Index))
 				w.u16(t.OptClass)
 				w.u8(t.OptType)
 				w.u8(t.OptLength)
@@ -349,6 +387,7 @@ func (g *G) specSwitchFrame() ([]byte, util.Message, string, string) {
 			v.VendorData = r
 			b := w.finish()
 			v.Header.Length = uint16(len(b))
+			g.swRecipe = fmt.Sprintf("(STlvReply %d %d %s)", r.MaxSpace, r.MaxFields, listT(mts))
 			return b, v, "nxt-tlv-table-reply", ""
 		}
 		bc := &of.BundleControl{BundleID: uint32(g.r.Bits(32)), Type: uint16(1 + 2*g.r.Intn(4)), Flags: uint16(g.r.Intn(4))}
@@ -367,6 +406,7 @@ func (g *G) specSwitchFrame() ([]byte, util.Message, string, string) {
 
 func runC04(seed uint64, tier, dir, replay string) error {
 	o := NewOut(dir, "C04", 16, "From LOF Require Import Corr.Dec.", "check04")
+	o.hyp = "thm_hyp04"
 	rng := NewRng(seed)
 	g := NewG(rng)
 	g.exact = true
@@ -397,7 +437,12 @@ func runC04(seed uint64, tier, dir, replay string) error {
 		case "of13-port-table-queue-stats":
 			known = 13
 		}
-		o.Add(fmt.Sprintf("(Sw %s %d %s %d %d %d)", packBytes(b), r.outcome, packBytes(r.re), max0(r.lenv), same, known), js, "sw:"+kind, fmt.Sprintf("%d/%d", len(b)/64, r.outcome))
+		term := fmt.Sprintf("(Sw %s %d %s %d %d %d)", packBytes(b), r.outcome, packBytes(r.re), max0(r.lenv), same, known)
+		if g.swRecipe != "" { // the value as a recipe: the general theorem's hypothesis and prediction are evaluated on it
+			term = fmt.Sprintf("(SwR %d %s %s %d %s %d %d %d)", g.swXid, g.swRecipe, packBytes(b), r.outcome, packBytes(r.re), max0(r.lenv), same, known)
+			js["recipe"] = g.swRecipe
+		}
+		o.Add(term, js, "sw:"+kind, fmt.Sprintf("%d/%d", len(b)/64, r.outcome))
 	}
 	o.Meta["rule"] = "spec-conformant switch messages written by an independent encoder (hello with bitmaps and unknown elements, error, experimenter error, echo with/without body, barrier reply, features reply with ports, get-config reply, packet-in with every match-field kind and Ethernet payloads of all kinds or none, flow-removed, port-status, multipart replies desc / aggregate / flow with instructions and actions / port statistics, tlv-table reply, bundle-control reply); the parsed message's canonical field dump is compared with the value the generator wrote; distinct by kind x size bucket x outcome"
 	return o.Close()
